@@ -17,7 +17,7 @@ ID = 'C14'
 LEVEL = 'exploration'
 TECHNIQUE = ('Hypothesis-generated well-defined expression ASTs rendered as ExecComp text; NumPy interpreter of the AST as '
              'value oracle; own symbolic forward-mode differentiator over the AST as derivative oracle')
-RULE = ("case = one ExecComp with 1-3 expressions over 1-5 inputs (shapes (1,), (n,), (m,n); shared between expressions; "
+RULE = ("case = one ExecComp with 1-3 expressions over 1-5 inputs (shapes (), (1,), (n,), (m,n); shared between expressions; "
         "optionally constants), each expression an AST of depth 1-5 over ExecComp's documented function table "
         "(elementwise functions incl. aliases, arctan2/maximum/minimum/fmax/fmin/power, integer and real powers, "
         "sum/prod/max/min, dot/inner/outer/matmul/kron/tensordot, indexing/slicing, diff, ones/zeros/linspace/arange, "
@@ -42,8 +42,8 @@ ASSUMPTIONS = [
     "expressions (axis=...) are not supported by ExecComp's parser and are excluded",
     "dynamic coloring perturbs inputs with numpy's global RNG: seeded from the case",
 ]
-MIN_CLASS_FRACTION = {'judged': 0.9, 'colored': 0.1, 'has_diag': 0.08, 'units': 0.1, 'shape_by_conn': 0.05,
-                      'kink_fn': 0.1, 'linalg': 0.1}
+MIN_CLASS_FRACTION = {'judged': 0.85, 'colored': 0.08, 'has_diag': 0.08, 'units': 0.1, 'shape_by_conn': 0.05,
+                      'kink_fn': 0.1, 'linalg': 0.08, 'shape0d': 0.02, 'manual_cs': 0.05}
 UNIT_TIMEOUT = {'quick': 1500, 'thorough': 7200}
 
 NAMES = ['a', 'b', 'c', 'd', 'g', 'h', 'k', 'm', 'p', 'q', 'r', 's', 't', 'u', 'v', 'w', 'x', 'y', 'z', 'x1', 'y_2',
